@@ -456,3 +456,5 @@ META = {
 }
 
 META['explanation'] += ' ' + 'Further: loader bundle (layout, strip, encoding, completeness) for the PRINCE grammar.'
+
+META['explanation'] += ' ' + 'Round 13: every counted word is written by whichever writer is installed (count/write pairing of C04 shared; the print_guess swallow is a recorded finding); children of the popped item are pushed in the same call.'
